@@ -366,7 +366,7 @@ func (p *C02) Gen(seed uint64, i int, tier string) *scen.Scenario {
 			op.X = append(append(g.raw(), t...), g.raw()...)
 			op.Msg = "raw" + t
 		case 2:
-			op.Msg = "line1 " + t + "\nline2\nline3" + scen.Pick(r, []string{"", "\n"})
+			op.Msg = "line1 " + t + "\nline2 " + t + "\nline3 " + t + scen.Pick(r, []string{"", "\n"})
 		default:
 			op.Msg = "m" + t
 		}
@@ -673,6 +673,8 @@ func (p *C02) Check(sc *scen.Scenario, run *orch.Run, env *orch.Env) []orch.Viol
 					}
 				} else if op.Tok != "" && len(op.X) == 0 && strings.Contains(op.Msg, op.Tok) && !containsTok(e.P, op.Tok) {
 					add("C02.whole", "entry="+op.Entry+mode, "%s(%q): the payload does not contain the call's token: %.200q", op.Entry, op.Msg, e.P)
+				} else if op.Tok != "" && len(op.X) == 0 && op.J == 0 && strings.Count(string(e.P), op.Tok) < strings.Count(op.Msg, op.Tok) {
+					add("C02.whole", "entry="+op.Entry+mode+" lines", "%s(%q): the message names the call %d times, the payload %d times: %.300q", op.Entry, op.Msg, strings.Count(op.Msg, op.Tok), strings.Count(string(e.P), op.Tok), e.P)
 				}
 			}
 		}
